@@ -80,7 +80,8 @@ pub fn pair(ka: u8, kb: u8, pre: u8) {
             vcheck!(o.lww == Some(want), "converge:survivor is the write with the greatest (time, replica) stamp");
         }
     }
-    vcover!(da.is_some() && db.is_some(), "both updates produced deltas");
+    // a DEL/HDEL of a key that does not exist produces no delta: only instances where both can are witnessed
+    if !(pre == 0 && (ka == 1 || ka == 3 || kb == 1 || kb == 3)) { vcover!(da.is_some() && db.is_some(), "both updates produced deltas"); }
     std::mem::forget((da, db, oa, ob, a, b));
 }
 
